@@ -444,20 +444,6 @@ theorem hget_addIf (b : Bool) (s : RState) (f : Fam) (k : CKind) (d : Int) (k' :
 theorem hget_idxSet (s : RState) (f : Fam) (k : Bytes) (v : Int) (k' : Bytes) : hget (idxSet s f k v).1 k' = hget s k' :=
   hget_congr (idxSet_hashes s f k v) k'
 
-/-- the command group shared by the put-type operations: HSET `pk` in `kA`, register `kA` in the
-index of `f`, HDEL `pk` from `kB`; with the three replies -/
-def core (s : RState) (f : Fam) (kA kB pk : Bytes) (now : Int) : RState × Nat × Nat × Nat :=
-  let h0 := hset s kA pk now
-  let h1 := idxSet h0.1 f kA now
-  let h2 := hdel h1.1 kB pk
-  (h2.1, h0.2, h1.2, h2.2)
-
-def core2 (s : RState) (f : Fam) (kA kB pk : Bytes) (now : Int) : RState × Nat × Nat × Nat :=
-  let h0 := hdel s kB pk
-  let h1 := hset h0.1 kA pk now
-  let h2 := idxSet h1.1 f kA now
-  (h2.1, h1.2, h2.2, h0.2)
-
 structure CoreEff (s : RState) (f : Fam) (kA kB pk : Bytes) (now : Int) (x : RState × Nat × Nat × Nat) : Prop where
   wf : WF x.1.hashes
   get : ∀ k', hget x.1 k' = if k' = kA then AMap.set (hget s kA) pk now else if k' = kB then AMap.erase (hget s kB) pk else hget s k'
